@@ -36,7 +36,7 @@ pub fn run(ctx: &mut Ctx) {
     for (n, ok) in r9::selftest(false) {
         ctx.selftest(&n, ok);
     }
-    ctx.require(&["ha=q(N-1)+r", "ha_r=0", "ha_r=N-2", "ha_top_limb_ones", "ha_all_ff", "ha_random", "ha_64_bytes", "ha_small", "h1", "h2", "extract_sign", "extract_enc", "extract_exch", "extract_fails_when_t1=0", "extract_ok_next_to_failure", "annex_keys", "id_empty", "id_long", "h1_same_id_all_hids", "ha_r_limb_ladder", "t1_limb_ladder", "t1_carry_chain", "id_beyond_2^16_bits", "extract_id_beyond_2^16_bits", "t2_near_group_order", "t2_table_scalar", "h1_h2_length_sweep", "id_with_nul_bytes"]);
+    ctx.require(&["ha=q(N-1)+r", "ha_r=0", "ha_r=N-2", "ha_top_limb_ones", "ha_all_ff", "ha_random", "ha_64_bytes", "ha_small", "h1", "h2", "extract_sign", "extract_enc", "extract_exch", "extract_fails_when_t1=0", "extract_ok_next_to_failure", "annex_keys", "id_empty", "id_long", "h1_same_id_all_hids", "ha_r_limb_ladder", "t1_limb_ladder", "t1_carry_chain", "id_beyond_2^16_bits", "extract_id_beyond_2^16_bits", "t2_near_group_order", "t2_table_scalar", "h1_h2_length_sweep", "id_with_nul_bytes", "ha_r_low_limbs_all_ones", "master_key=N-1"]);
     let pr = r9::params();
     let nm1 = &pr.n - 1u32;
     let two320: BigUint = BigUint::one() << 320;
@@ -84,6 +84,36 @@ pub fn run(ctx: &mut Ctx) {
                 ctx.class("ha_r_limb_ladder");
                 ctx.class(&format!("ha_r_ladder:{}", pat));
                 reduce_case(ctx, &ha_bytes(&v), "ha_r_limb_ladder");
+            }
+        }
+    }
+    // --- r = Ha mod (N-1) with all-ones low limbs: the final "+1" ripples a carry through them
+    {
+        let mut pl = ctx.prng("r_ones");
+        let reps = ctx.n(4, 60);
+        for rep in 0..reps {
+            for nlow in 1..=3usize {
+                idx += 1;
+                let qsub = pl.next();
+                let mut l = pl.limbs();
+                if !ctx.mine(idx) {
+                    continue;
+                }
+                for j in 0..nlow {
+                    l[j] = u64::MAX;
+                }
+                l[3] %= 0xB640_0000_02A3_A6F1;
+                let r = r9::from_limbs(&l);
+                if r >= nm1 {
+                    continue;
+                }
+                let q = if rep == 0 { BigUint::zero() } else { BigUint::from(qsub) % (&qmax) };
+                let v = &q * &nm1 + &r;
+                if v >= two320 {
+                    continue;
+                }
+                ctx.class("ha_r_low_limbs_all_ones");
+                reduce_case(ctx, &ha_bytes(&v), "ha_r_low_limbs_all_ones");
             }
         }
     }
@@ -253,6 +283,16 @@ pub fn run(ctx: &mut Ctx) {
             for hid in [1u8, 2, 3] {
                 ctx.class("id_with_nul_bytes");
                 extract_case(ctx, &kk, id, hid, "id_with_nul_bytes");
+            }
+        }
+    }
+    // --- the largest legal master key N-1 (and N-2) for all three extractions
+    if ctx.mine(4) {
+        for k in [&pr.n - 1u32, &pr.n - 2u32] {
+            for hid in [1u8, 2, 3] {
+                ctx.class("master_key=N-1");
+                extract_case(ctx, &k, b"Alice", hid, "master_key=N-1");
+                extract_case(ctx, &k, b"", hid, "master_key=N-1");
             }
         }
     }
